@@ -983,7 +983,7 @@ pub fn all() -> Vec<Box<dyn Check>> {
     Box::new(MixCheck {
         id: "C10",
         level: "exploration",
-        rule: "virtual-time executions in which the application waits in poll() all the time: keep-alive in {0,1,2,3,9,10,11,60,65535} s x Server Keep Alive override {none,0,1,5,30,65535} s; outbound publishes, inbound publishes and PINGRESP placed at deadline-1 tick, deadline, deadline+1 tick and random instants; PINGRESP immediate / delayed by 4999999, 5000000, 5000001 us, KA/2+-1 tick, random / never. The monitor measures the gap between consecutive completed client packets against the effective keep-alive, the absence of pings at keep-alive 0, the instant at which an unanswered PINGREQ ends the wait (exactly 5 s after its flush), no disconnect when the PINGRESP came in time, never two outstanding pings. Non-trivial iff a PINGREQ was sent or a timeout fired.",
+        rule: "virtual-time executions in which the application waits in poll() all the time: keep-alive in {0,1,2,3,9,10,11,60,65535} s x Server Keep Alive override {none,0,1,5,30,65535} s; outbound publishes, inbound publishes and PINGRESP placed at deadline-1 tick, deadline, deadline+1 tick and random instants; PINGRESP immediate / delayed by 4999999, 5000000, 5000001 us, KA/2+-1 tick, random / never. The monitor measures the gap between consecutive completed client packets against the effective keep-alive, the absence of pings at keep-alive 0, the instant at which an unanswered PINGREQ ends the wait (exactly 5 s after its flush), no disconnect when the PINGRESP came in time, never two outstanding pings. Further schedules: earlier connections of the same session with a different Server Keep Alive; a broker Maximum Packet Size of 24 (publishes refused locally are not client packets) or of 64 KiB / 1 MiB / 16 MiB; a slow transport (one byte per write, busy for 1 to 4.9 s after a partial write); a PINGREQ given up by the caller after its first byte; a sluggish executor that polls the task woken by arriving data 1 ms to 7 s late (a PINGRESP counts as received when it reached the transport while the call that then read it, or gave the connection up, was waiting). Gaps and late reports that span a busy transport or a late wake-up are counted, not judged; never-too-early and no-spurious-timeout are judged on every connection whose stream stayed in sync. Non-trivial iff a PINGREQ was sent or a timeout fired.",
         assumptions: {
             let mut v = COMMON_ASSUME.to_vec();
             v.push("the documented round-trip bound is ROUND_TRIP_TIMEOUT_MS = 5000 ms, counted from the completion of the PINGREQ flush");
